@@ -181,6 +181,23 @@ def _distinguished(gm, f, var, src, methods):
                 if d in ("%s.wrap.c" % src, "%s.wrap.fortran" % src) and isinstance(n.value, ast.Constant) and n.value.value is False:
                     off.append(d + " = False")
     if off:
+        # ... for every language the clone is wrapped for
+        served = set()
+        for n in ast.walk(f):
+            if isinstance(n, ast.Assign):
+                for t in n.targets:
+                    d = pyflow.dotted(t) or ""
+                    for lang in ("c", "fortran"):
+                        if d == "%s.wrap.%s" % (var, lang) and not (isinstance(n.value, ast.Constant) and n.value.value is False):
+                            served.add(lang)
+            if isinstance(n, ast.Call) and (pyflow.call_name(n) or "") == "%s.wrap.assign" % var:
+                for k in n.keywords:
+                    if k.arg in ("c", "fortran") and not (isinstance(k.value, ast.Constant) and k.value.value is False):
+                        served.add(k.arg)
+        cleared = any(o.endswith(".wrap.clear()") for o in off)
+        missing = [lang for lang in sorted(served) if not cleared and ("%s.wrap.%s = False" % (src, lang)) not in off]
+        if missing:
+            return None
         return "original switched off: " + ", ".join(sorted(set(off)))
     # clone of a clone that already got the suffix (result_as_arg: clones C_new, takes node's suffix, node.wrap.fortran off)
     return None
@@ -195,6 +212,10 @@ TEMPLATES = {
     "PY_type_impl_template": dict(need=["{function_suffix}", "{template_suffix}", "{cxx_class}"]),
     "F_name_generic_template": dict(need=["{underscore_name}"], forbid=["{function_suffix}", "{template_suffix}"]),
     "LUA_name_impl_template": dict(need=["{C_name_scope}", "{underscore_name}"]),
+    # enumerations and enumerators of two scopes (classes, `enum class`) that share a name are told apart by the scope
+    "C_enum_template": dict(need=["{C_prefix}", "{C_name_scope}", "{enum_name}"]),
+    "C_enum_member_template": dict(need=["{C_prefix}", "{C_name_scope}", "{enum_member_name}"]),
+    "F_enum_member_template": dict(need=["{F_name_scope}", "{enum_member_lower}"]),
 }
 
 
@@ -630,11 +651,24 @@ def rule_r8(repo, run):
                                          and any(pyflow.is_name(x, "arg") for x in ast.walk(c)) for c in ast.walk(i.test)):
             if any(isinstance(a, ast.Assign) and pyflow.is_name(a.targets[0], "name") for st in i.body + i.orelse for a in ast.walk(st)):
                 collision = True
+    # what is compared is the whole function pointer: its parameter list is what tells the overloads apart
+    partial = None
+    for i in ast.walk(fn):
+        if isinstance(i, ast.If) and any(isinstance(c, ast.Compare) and any(pyflow.is_name(x, "arg") for x in ast.walk(c)) for c in ast.walk(i.test)):
+            for c in ast.walk(i.test):
+                if isinstance(c, ast.Call) and any(k.arg == "params" and isinstance(k.value, ast.Constant) and k.value.value is None
+                                                   for k in c.keywords):
+                    partial = c
+                if isinstance(c, ast.Attribute) and c.attr in ("name", "typemap") and pyflow.is_name(c.value, "arg"):
+                    partial = c
+    if partial is not None:
+        collision = False
     ok = "{function_suffix}" in default or not first_wins or collision
     run.check(R, "wrapf.Wrapf.add_abstract_interface:%s" % opt, ok,
               "the interface is registered under `%s` (no {function_suffix}) and the first one stored under a name is kept without "
               "looking at it: `int apply(int (*fn)(int), int)` and `double apply(double (*fn)(double), double)` both get "
-              "procedure(apply_fn) with the int signature" % default, wf.loc(fn))
+              "procedure(apply_fn) with the int signature%s" % (default, "; the comparison `%s` leaves the parameter list out"
+                                                                % ast.unparse(partial) if partial is not None else ""), wf.loc(fn))
 
 
 def run(repo, run, tier):
